@@ -1038,6 +1038,14 @@ def fam_hazmat_ops(rng):
         [{"op": "set_input_offset", "v": 1 << 63}, {"op": "update", "a": 0, "b": 3000}, {"op": "count"},
          {"op": "finalize_non_root"}],
         [{"op": "update", "a": 0, "b": 5000}, {"op": "finalize_non_root"}, {"op": "finalize"}],
+        # zero-length updates are no-ops, also as the first update of a positioned hasher and between pieces
+        [{"op": "set_input_offset", "v": 2048}, {"op": "update", "a": 0, "b": 0}, {"op": "count"}, {"op": "update", "a": 0, "b": 1500},
+         {"op": "update", "a": 1500, "b": 1500}, {"op": "update", "a": 1500, "b": 2048}, {"op": "update", "a": 0, "b": 0},
+         {"op": "count"}, {"op": "finalize_non_root"}],
+        [{"op": "set_input_offset", "v": 1 << 63}, {"op": "update", "a": 0, "b": 0}, {"op": "update", "a": 0, "b": 1024},
+         {"op": "finalize_non_root"}],
+        [{"op": "update", "a": 0, "b": 0}, {"op": "count"}, {"op": "update", "a": 0, "b": 1024}, {"op": "update", "a": 0, "b": 0},
+         {"op": "update", "a": 1024, "b": 1025}, {"op": "count"}, {"op": "finalize"}],
         # documented panics
         [{"op": "set_input_offset", "v": 1}],
         [{"op": "update", "a": 0, "b": 1}, {"op": "set_input_offset", "v": 0}],
@@ -1377,7 +1385,7 @@ TABLE = [
     (r"^crate::Hasher::(count|new|new_keyed|new_derive_key|new_internal|default)", ["incremental", "reset", "hazmat_ops"],
      GENERAL, ()),
     (r"^crate::Hasher::(update|update_with_join|merge_cv_stack|push_cv|final_output|finalize|write|flush)",
-     ["incremental", "hazmat_tree", "reset", "reader"], GENERAL, ()),
+     ["incremental", "hazmat_ops", "hazmat_tree", "reset", "reader"], GENERAL, ()),
     (r"^crate::ChunkState::", ["guts", "incremental", "oneshot", "hazmat_tree"], GENERAL, ()),
     (r"^crate::Output::", ["oneshot", "xof", "incremental", "hazmat_tree"], GENERAL, ()),
     (r"^crate::parent_node_output", ["guts", "incremental", "hazmat_tree", "oneshot"], GENERAL, ()),
